@@ -68,6 +68,11 @@ func execMethodFunction(vm *r.VM, root r.Element, funcName *r.IDName, params []r
 	case *value.Object:
 		// the method runs in the module that defines the object's type; looking the type's
 		// name up in the caller's scope is only the fallback for native types
+		// no call begins when the object has no such method (a frame pushed for it would
+		// show up in the report as a call site at 'line 1')
+		if _, ok := robj.GetModel().FindMethod(funcName.GetLiteral()); !ok {
+			return nil, zerr.MethodNotFound(funcName.GetLiteral())
+		}
 		refModule := robj.GetModel().GetModule()
 		if refModule == nil {
 			var err error
@@ -111,6 +116,10 @@ func execDirectFunction(vm *r.VM, funcName *r.IDName, params []r.Element) (r.Ele
 	// through (an alias of an imported method, a parameter, a loop variable)
 	if fn.GetModule() != nil {
 		module = fn.GetModule()
+	} else {
+		// a native function (predefined or from a library) has no source lines, under
+		// whatever name it is called
+		module = r.NativeCodeModule
 	}
 	// a recursion that never ends is an error of the program, not the end of the process
 	if vm.CallDepthExceeded() {
